@@ -40,6 +40,7 @@ class CliCheck(object):
         self.candidates = []
         self.harness_notes = []
         self.cross = {}
+        self.job_times = []
 
     # ------------------------------------------------------------------ exploration
     def explore(self):
@@ -70,6 +71,7 @@ class CliCheck(object):
             self.rep.harness_error('job %d: %s' % (index, res['harness_error'][-600:]))
             return
         self.stats['jobs'] += 1
+        self.job_times.append((round(job.get('_dt', 0), 2), index))
         if 'batch' in res:
             specs = job['batch']
             results = res['batch']
@@ -263,6 +265,7 @@ class CliCheck(object):
             },
             'known_findings_matched': {k: h['count'] for k, h in self.rep.known_hit.items()},
             'harness_errors': len(self.rep.harness_errors),
+            'slowest_jobs_s': sorted(self.job_times, reverse=True)[:5],
         }
         if prop == 'C13':
             cov['flag_discriminated'] = dict(sorted(self.flag_disc.items()))
